@@ -35,6 +35,13 @@ def run(ctx, chk):
                 n_ok += 1
                 chk.ob(bool(passed), "C02/ungated-accept/%s" % p.kind, "a line is accepted (%s) [%s] on a path that never passed the checksum comparison" % (p.kind, cfg),
                        sample={"path": p.kind, "checksum_before_first_store": True})
+            if p.kind.startswith("err:") and p.kind not in ("err:form", "err:checksum"):
+                # "if a line is otherwise well-formed and the two values differ, the parser returns
+                # a checksum error": every other rejection of a well-formed line (sequencing,
+                # capacity, decoding) must come after the checksum has been verified
+                chk.ob(bool(passed), "C02/rejection-before-check/%s" % p.kind,
+                       "a well-formed line is rejected with %s [%s] on a path that has not compared the checksum: with a wrong checksum it would not get the checksum error" % (p.kind, cfg),
+                       sample={"path": p.kind, "checksum_verified_first": True})
             if idx_store:
                 chk.ob(bool(passed) and passed[0] < idx_store[0], "C02/store-before-check/%s" % p.kind,
                        "the parser state is written [%s] before the checksum has been verified (path ending in %s)" % (cfg, p.kind))
